@@ -495,9 +495,9 @@ func run(r *vrt.Run) {
 		r.Inconclusive("strace not available: %v", err)
 		return
 	}
-	nh := r.N(16, 400)
-	posPer := r.N(60, 1<<30)
-	nRandom := r.N(2, 8)
+	nh := r.N(6, 200)
+	posPer := r.N(40, 1<<30)
+	nRandom := r.N(1, 8)
 	var mu sync.Mutex
 	seenStates := 0
 	vrt.Par(nh, 0, func(hi int) {
@@ -544,10 +544,16 @@ func run(r *vrt.Run) {
 		if err := fs.SelfCheck(); err != nil {
 			r.Inconclusive("history %d: journal self-check failed: %v", hi, err)
 			r.Count("selfcheck_failed", 1)
+			if os.Getenv("C24_KEEP") != "" {
+				exec.Command("cp", "-r", base, os.Getenv("C24_KEEP")).Run()
+			}
 			return
 		}
 		r.Count("journals_selfchecked", 1)
 		r.Count("journal_events", len(evs))
+		if os.Getenv("C24_ONLY_SELFCHECK") != "" {
+			return
+		}
 		// op boundaries by event index
 		begin := make([]int, len(h.Ops))
 		end := make([]int, len(h.Ops))
